@@ -53,6 +53,9 @@ func lookupModel(fn *ssa.Function) modelFn {
 	if m := syncMapModels(name); m != nil {
 		return mark(m)
 	}
+	if m := sortModels(name); m != nil {
+		return mark(m)
+	}
 	switch {
 	case pkg == "github.com/sirupsen/logrus":
 		return mark(modelNoEffect)
